@@ -157,6 +157,12 @@ func (p *Proc) RawCount(iid int) int {
 // Plan arranges a crash relative to the child's current write counts: "meta:+1:before" etc.
 func (p *Proc) Plan(spec string) { p.call(Req{Op: "plan", U: spec}) }
 
+// WritesDone returns the numbers of metadata and data writes whose store call has returned.
+func (p *Proc) WritesDone() (meta, data int) {
+	r, _ := p.call(Req{Op: "writes"})
+	return r.MetaDone, r.DataDone
+}
+
 func (p *Proc) Sleep(ms int) { p.call(Req{Op: "sleep", Ms: ms}) }
 
 // Quit shuts the child down cleanly (datastore.Shutdown, storage.Shutdown).
